@@ -38,6 +38,32 @@ GATES = {"internal/dmap/eviction.go": ["-skip", "evictKeys"],
                                      "-point", "atomicIncrByFloat", "put", "atomic.read"]}
 
 
+class lean_lock:
+    """One Lean / tools build at a time across concurrently running checks: `lake build` processes that rebuild the
+    same module at the same moment (the first run after the source changed a generated file) trip over each other's
+    output files.  Re-entrant within a process."""
+    depth = 0
+    fh = None
+
+    def __enter__(self):
+        import fcntl
+        if lean_lock.depth == 0:
+            os.makedirs(BUILD, exist_ok=True)
+            lean_lock.fh = open(os.path.join(BUILD, "lean.lock"), "w")
+            fcntl.flock(lean_lock.fh, fcntl.LOCK_EX)
+        lean_lock.depth += 1
+        return self
+
+    def __exit__(self, *exc):
+        import fcntl
+        lean_lock.depth -= 1
+        if lean_lock.depth == 0:
+            fcntl.flock(lean_lock.fh, fcntl.LOCK_UN)
+            lean_lock.fh.close()
+            lean_lock.fh = None
+        return False
+
+
 def run(cmd, cwd=None, env=None, check=True, timeout=None, quiet=False):
     p = subprocess.run(cmd, cwd=cwd, env=env, stdout=subprocess.PIPE, stderr=subprocess.STDOUT,
                        text=True, timeout=timeout)
@@ -49,6 +75,11 @@ def run(cmd, cwd=None, env=None, check=True, timeout=None, quiet=False):
 
 
 def build_tools():
+    with lean_lock():
+        return _build_tools()
+
+
+def _build_tools():
     """extractor + clock rewriter (stdlib-only Go module in /verif/extract)."""
     os.makedirs(BUILD, exist_ok=True)
     src = os.path.join(VERIF, "extract")
@@ -106,7 +137,8 @@ def build_harness(workdir):
 
 def lake_build(targets, timeout=3000):
     """Returns (ok, output)."""
-    p = run(["lake", "build"] + list(targets), cwd=LEAN, check=False, timeout=timeout)
+    with lean_lock():
+        p = run(["lake", "build"] + list(targets), cwd=LEAN, check=False, timeout=timeout)
     return p.returncode == 0, p.stdout
 
 
